@@ -29,7 +29,7 @@ COMPONENTS = {"real": ["subsequence/localconcurrences.py (LocalConcurrences, LCM
                        "dtw.warping_paths_affinity (Python)", "dtw.warping_paths_affinity_fast full and compact (C: dtw_warping_paths_affinity, dtw_expand_wps_slice_affinity)",
                        "C: dtw_wps_max / negativize / positivize / best_path_affinity when a use_c instance can be constructed"],
               "stub": ["client sessions and their interleaving (seeded scheduler)", "reference model: affinity recurrence + consumed-cell set (sim/models/dtw_ref.py)"]}
-ASSUMPTIONS = ["bounds: series length 2..10, histories <= 36 ops; values on a small grid so that equal stretches (real local concurrences) exist",
+ASSUMPTIONS = ["bounds: mostly series length 2..10 (one history in 12: length 11..24, minlen up to 8, |buffer| up to 6, up to ~60 ops); values on a small grid so that equal stretches (real local concurrences) exist",
                "reset() is taken to void generators created before it (they keep working on the dropped matrix)", "use_c instances (full and compact) are driven through the same histories; where the C matrix is known not to equal the recurrence (window set, penalty outside {0,1}: known findings) their history ops are skipped",
                "a restart (restart=True at a generator's first next, kbest_matches_store(keep=False) returning) empties the model's consumed set: the model never demands reuse, it only forbids reuse since the last reset",
                "wp_slice(positivize=True) is not part of the generated histories (on the masked-array variant it rewrites the shared matrix through a view, turning -inf into +inf; the property does not speak of it)"]
@@ -55,7 +55,8 @@ def gen_history(st):
             return float(rng.below(4))
         return (rng.below(9) - 4) * 0.5
 
-    l1 = 2 + rng.below(9)
+    big = rng.below(12) == 0          # swarm sizing: one history in 12 uses long series, larger minlen / buffer and more matches
+    l1 = 11 + rng.below(14) if big else 2 + rng.below(9)
     s1 = [val() for _ in range(l1)]
     selfcmp = rng.below(3) == 0
     if selfcmp:
@@ -67,7 +68,7 @@ def gen_history(st):
             b = a + m + rng.below(l1 - a - 2 * m + 1)
             s1[b:b + m] = s1[a:a + m]
     else:
-        l2 = 2 + rng.below(9)
+        l2 = 11 + rng.below(14) if big else 2 + rng.below(9)
         s2 = [val() for _ in range(l2)]
         if rng.below(2) and l2 >= 3 and l1 >= 3:
             m = 2 + rng.below(min(l1, l2) - 1)
@@ -95,11 +96,11 @@ def gen_history(st):
         programs[rng.below(nsess)].append({"op": "align"})
     for s in range(nsess):
         mine = []
-        for _ in range(2 + rng.below(8)):
+        for _ in range((6 + rng.below(14)) if big else (2 + rng.below(8))):
             k = rng.below(20)
             if k < 5 or (not mine and k < 9):
-                programs[s].append({"op": "open", "stream": sid, "k": rng.choice([1, 2, 3, None, None]), "minlen": rng.choice([2, 2, 1, 3]),
-                                    "buffer": rng.choice([0, 0, 0, -1, 1, 2]), "restart": rng.below(3) != 0})
+                programs[s].append({"op": "open", "stream": sid, "k": rng.choice([1, 2, 3, None, None] + ([6, 10] if big else [])), "minlen": rng.choice([2, 2, 1, 3] + ([5, 8] if big else [])),
+                                    "buffer": rng.choice([0, 0, 0, -1, 1, 2] + ([4, 6, -3] if big else [])), "restart": rng.below(3) != 0})
                 mine.append(sid); sid += 1
             elif k < 13:
                 if mine:
